@@ -73,6 +73,9 @@ def fileData (body : Bytes) : Bytes := Bytes.cstr body
 inductive WsMode | norm | block | line
   deriving Repr, DecidableEq
 
+/-- the callee's result after the caller consumed `k` more bytes -/
+def bump (k : Nat) (r : UInt8 × Nat) : UInt8 × Nat := (r.1, r.2 + k)
+
 /-- `wsGo care mode s = (ch, k)`: the function returns `ch` (0 at end of input) after the
     cursor advanced by `k` over the suffix `s`.
     `norm`  : the outer `while (*parse->curr)` loop;
@@ -86,22 +89,22 @@ def wsGo (care : Bool) : WsMode → Bytes → UInt8 × Nat
     else (c, 1)                      -- includes '/' + NUL: `curr++` past the NUL, then `curr--`
   | .norm, c :: d :: rest =>
     if c == 10 then
-      if care then (10, 1) else let r := wsGo care .norm (d :: rest); (r.1, r.2 + 1)
-    else if isSpaceC c then let r := wsGo care .norm (d :: rest); (r.1, r.2 + 1)
+      if care then (10, 1) else bump 1 (wsGo care .norm (d :: rest))
+    else if isSpaceC c then bump 1 (wsGo care .norm (d :: rest))
     else if c != 47 then (c, 1)
-    else if d == 42 then let r := wsGo care .block rest; (r.1, r.2 + 2)
-    else if d == 47 then let r := wsGo care .line rest; (r.1, r.2 + 2)
+    else if d == 42 then bump 2 (wsGo care .block rest)
+    else if d == 47 then bump 2 (wsGo care .line rest)
     else (47, 1)                     -- un-read `d`, return '/'
   | .block, [] => (0, 0)             -- NUL read, `curr--`: the cursor stays on the NUL
   | .block, [_] => (0, 1)
   | .block, c :: d :: rest =>
-    if c == 42 && d == 47 then let r := wsGo care .norm rest; (r.1, r.2 + 2)
-    else let r := wsGo care .block (d :: rest); (r.1, r.2 + 1)
+    if c == 42 && d == 47 then bump 2 (wsGo care .norm rest)
+    else bump 1 (wsGo care .block (d :: rest))
   | .line, [] => (0, 0)
   | .line, c :: rest =>
     if c == 10 then                  -- un-read; the outer loop then sees the newline
-      if care then (10, 1) else let r := wsGo care .norm rest; (r.1, r.2 + 1)
-    else let r := wsGo care .line rest; (r.1, r.2 + 1)
+      if care then (10, 1) else bump 1 (wsGo care .norm rest)
+    else bump 1 (wsGo care .line rest)
 
 /-- `conf_parse_whitespace(parse, care_eof)` at cursor `pos`: returned character and new cursor.
     Dereferencing a cursor beyond the terminating NUL is a fault. -/
